@@ -61,3 +61,15 @@ package cli
 //@ props C17
 //@ may_panic true
 //@ ensures result == result_of(zapConf.Build, 0)
+
+// Four counters of their own, published under the documented names: requests and responses are counted apart (what is in
+// flight is their difference), and so are started and finished instances.
+//@ func newEngineMetrics
+//@ props C03 C05
+//@ may_panic true
+//@ ensures result.Request != nil && result.Response != nil && result.InstanceStart != nil && result.InstanceFinish != nil
+//@ ensures [four-different-counters] result.Request != result.Response && result.InstanceStart != result.InstanceFinish && result.Request != result.InstanceStart && result.Response != result.InstanceFinish
+//@ at call monitoring.NewCounter#0 assert arg(name) == "engine_Requests"
+//@ at call monitoring.NewCounter#1 assert arg(name) == "engine_Responses"
+//@ at call monitoring.NewCounter#2 assert arg(name) == "engine_UsersStarted"
+//@ at call monitoring.NewCounter#3 assert arg(name) == "engine_UsersFinished"
